@@ -8,8 +8,6 @@
 //@pin file=cfgrammar/src/lib/yacc/parser.rs fn=parse_programs sha=bb9c484143dab195
 //@pin file=cfgrammar/src/lib/yacc/parser.rs fn=build sha=662f52b88f00489d
 //@pin file=cfgrammar/src/lib/yacc/parser.rs fn=add_duplicate_occurrence sha=6fccdba6cf4c19b3
-//@pin file=cfgrammar/src/lib/yacc/ast.rs fn=add_rule sha=b2e1e5ed4362c84c
-//@pin file=cfgrammar/src/lib/yacc/ast.rs fn=add_prod sha=fd604b6e844b36f7
 //@pin file=cfgrammar/src/lib/yacc/ast.rs fn=add_programs sha=fb76c16f98745b8d
 //@pin file=cfgrammar/src/lib/yacc/ast.rs fn=set_programs sha=a672bc6e20d019f4
 //@pin file=cfgrammar/src/lib/yacc/ast.rs fn=get_rule sha=3287f2f00d7e97fc
